@@ -16,6 +16,18 @@ the other on ONE loader object (plain, extended, loadFile / loadURL entry, and
 fresh loaders sharing only the schema); every load of a session must give
 what the reference says for that text alone and exactly what a first load on a
 new loader gives.
+
+Wave 3 adds the CODE POINT axis of the name position.  Whether a letter or digit
+outside ASCII may be part of a name is not fixed by the statement, so such tokens
+are judged by consistency: a token is accepted by '%define' exactly when the
+public ZConfig.substitution.isname accepts it, and a name that '%define'
+accepts is a full member of the namespace (a use '$N' and '${N}' resolves to its
+value, from the defining resource and from the includer; it cannot be re-defined
+with another value).  Tokens without such a character (ASCII, marks, symbols)
+are judged by the reference directly.  Enumerated: every Unicode scalar value
+at the positions alone / first / middle / last of a name; every string of <= 3
+characters over an alphabet with one representative per character class in five
+contexts; six such tokens as events of the breadth-first search.
 """
 import io
 
@@ -35,6 +47,44 @@ FAULTS = {"junk": "<<<", "unknown-key": "zz 1", "no-file": "%include nofile.conf
 
 # what may be written where the NAME of a %define belongs and is not a name
 FIXED_ILLEGAL = ["a-b", "1a", "$$a", "a$b", "a$$"]
+
+
+# wave 3 - tokens with a character outside ASCII as events of the breadth-first search:
+# after the name 'a' a letter, a decimal digit, an ordinal mark and a combining mark;
+# a letter before it; a letter inside 'ab'
+BFS_TOKENS = ["a\u00e9", "a\u0661", "a\u00ba", "a\u0301", "\u00e9a", "a\u00e9b"]
+
+
+def impl_isname(tok):
+    """The implementation's own, public statement of what a legal name is."""
+    from ZConfig.substitution import isname
+    return bool(isname(tok))
+
+
+def token_class(tok):
+    """-> (class, verdict).  'delimiter': the token holds a character that Python regards
+    as white space - where the name ends is then a matter of line syntax, not of this
+    property (totality only).  'definite': the statement decides (verdict True: ASCII
+    letters, digits, underscores, not starting with a digit; verdict False: some
+    character is neither that nor a letter / digit of another script).  'open':
+    everything else, i.e. a would-be name with a letter or digit outside ASCII - the
+    statement says "letter" and leaves open whether that one counts."""
+    if not tok or any(c.isspace() for c in tok):
+        return "delimiter", None
+    if RS.is_name(tok) == (True, False):
+        return "definite", True
+    for c in tok:
+        if c not in RS.NAME_CHAR and not RS._unspec_char(c):
+            return "definite", False
+    if tok[0] in "0123456789":
+        return "definite", False          # "may not start with a digit"
+    return "open", None
+
+
+def lowercases_to_ascii_name(tok):
+    """Violation tag: a token outside ASCII whose lower-cased spelling is an ASCII name."""
+    low = tok.lower()
+    return (not tok.isascii()) and low.isascii() and RS.is_name(low) == (True, False)
 
 
 def illegal_names():
@@ -63,6 +113,8 @@ def alphabet(tier):
         for bad in illegal_names():
             if "$" in bad:
                 evs.append(("def", bad, ""))
+    for tok in BFS_TOKENS:
+        evs.append(("def", tok, "lit"))
     for n in NAMES:
         for sp in SPELL[n]:
             evs.append(("use", sp))
@@ -112,6 +164,14 @@ def ref_run(hist):
     for i, ev in enumerate(hist):
         if ev[0] == "def":
             raw = ev[2].strip()
+            if token_class(ev[1])[0] == "open":
+                # a letter / digit outside ASCII in the name: the reading is the one the
+                # implementation's public isname() states for this token
+                if not impl_isname(ev[1]):
+                    return ("syntax",), ds, depth, False, i
+                if "$" in raw:
+                    return ("unspec",), ds, depth, False, i
+                return ("open-legal", list(uses), raw), ds, depth, False, i
             r = ds.define(ev[1], raw)
             if r == "ok":
                 continue
@@ -229,6 +289,9 @@ def check(sch, hist, acc):
         if o1[0] == "internal":
             acc.violation("internal-error", case, o1[1], "configuration error", tags={"kind": "internal-error"})
         return False
+    if at == len(hist) - 1 and hist[-1][0] == "def" and token_class(hist[-1][1])[0] == "open":
+        bfs_open_token(sch, hist, exp, o1, case, acc)
+        return False
     if not agrees(o1, exp, hist, at):
         acc.violation("define-namespace-outcome", case, list(o1), list(exp),
                       tags={"kind": "define-namespace", "expected": exp[0], "observed": o1[0],
@@ -236,6 +299,37 @@ def check(sch, hist, acc):
                             "dollar_in_name": "dollar-in-name" in fs})
         return False
     return alive
+
+
+def bfs_open_token(sch, hist, exp, o1, case, acc):
+    """Last event: %define of a token with a letter / digit outside ASCII, after a
+    history the reference accepts.  isname() refuses it -> the line is refused as a
+    syntax error; isname() accepts it -> the line is accepted and the name can be
+    referred to from here on."""
+    tok = hist[-1][1]
+    prefix = tok[:RS.scan_name(tok, 0)[0]].lower()
+    held = ref_run(hist[:-1])[1].lookup(prefix) if prefix else None
+    acc.extra["bfs_non_ascii_name_after_its_ascii_prefix_was_%s" % ("undefined" if held is None else "defined")] += 1
+    tags = {"kind": "name-consistency", "class": "open", "context": "history",
+            "lowercases_to_ascii_name": lowercases_to_ascii_name(tok)}
+    if exp[0] == "syntax":
+        if o1[0] not in ("syntax", "missing"):
+            acc.violation("name-token", case, list(o1), "refused as a syntax error: isname(%s) is false" % ascii(tok),
+                          tags=dict(tags, what="define-accepts-what-isname-refuses" if o1[0] == "ok"
+                                    else "refusal-is-not-a-syntax-error"))
+        return
+    want = ("ok", exp[1])
+    if o1 != want:
+        acc.violation("name-token", case, list(o1), list(want),
+                      tags=dict(tags, what="define-refuses-what-isname-accepts"))
+        return
+    h2 = hist + (("use", tok), ("use{}", tok))
+    got = observe(sch, build_files(h2))
+    acc.ev()
+    want = ("ok", exp[1] + [exp[2], exp[2] + "-"])
+    if got != want:
+        acc.violation("name-token", {"history": [list(e) for e in h2], "files": build_files(h2)}, list(got),
+                      list(want), tags=dict(tags, what="accepted-name-not-referable"))
 
 
 def agrees(obs, exp, hist, at="?"):
@@ -536,9 +630,206 @@ def session_shard(arg, acc):
     return acc
 
 
+# ---------------------------------------------------------------------------
+# wave 3: the name position by code point
+
+POSITIONS = ("alone", "first", "middle", "last")
+CONTEXTS = ("plain", "after-prefix", "included", "redefined", "empty-value")
+
+# one representative per class of character that some notion of "identifier" tells apart
+SIGMA_QUICK = [
+    "a", "B", "_", "1", "-",
+    "\u00e9",        # Ll  small letter
+    "\u00c9",        # Lu  capital letter (its small form is not ASCII either)
+    "\u00df",        # Ll  letter whose capital / folded form is two ASCII letters
+    "\u212a",        # Lu  letter whose small form is an ASCII letter
+    "\u0130",        # Lu  letter whose small form is an ASCII letter and a combining mark
+    "\u0661",        # Nd  decimal digit
+    "\u00b2",        # No  superscript digit
+    "\u2167",        # Nl  letter number
+    "\u00ba",        # Lo  ordinal mark
+    "\u0301",        # Mn  combining mark
+    "\u200d",        # Cf  joiner
+    "\u00b7",        # Po  punctuation that identifiers may continue with
+    "\uff41",        # Ll  compatibility form of an ASCII letter
+    "\U0001d41a",    # Ll  letter outside the basic plane
+    "\u4e2d",        # Lo  ideograph
+    "\u20ac",        # Sc  symbol
+    "\ufb01",        # Ll  ligature of two ASCII letters
+]
+SIGMA_MORE = [
+    "\u00aa", "\u03a9", "\u01c5", "\u02b0", "\u0903", "\u20dd", "\u203f", "\u00ad", "\ufeff",
+    "\u2118", "\u0e33", "\u037a", "\U0001f600", "\u00b5", "\u017f",
+]
+
+
+def sigma(tier):
+    return SIGMA_QUICK + (SIGMA_MORE if tier != "quick" else [])
+
+
+def positioned(pos, c):
+    return {"alone": c, "first": c + "a", "middle": "a" + c + "b", "last": "a" + c}[pos]
+
+
+def sweep_shaped(tok):
+    """Is this token also one of the code point sweep?"""
+    n = len(tok)
+    return n == 1 or (n == 2 and "a" in tok) or (n == 3 and tok[0] == "a" and tok[2] == "b")
+
+
+def scenario(tok, ctx, legal):
+    """-> list of (what-a-mismatch-means, files, expected) steps, or None when the context
+    does not apply.  expected: ('ok', [values of u]) | 'refused'.  The steps after the
+    first only exist when the name is legal."""
+    d = "%define " + tok
+    uses = "u $" + tok + "\nu ${" + tok + "}-\n"
+    acc_or_ref = lambda vals: ("ok", vals) if legal else "refused"
+    if ctx == "plain":
+        steps = [("define", {MAIN: d + " lit\n"}, acc_or_ref([]))]
+        if legal:
+            steps.append(("refer", {MAIN: d + " lit\n" + uses}, ("ok", ["lit", "lit-"])))
+    elif ctx == "after-prefix":
+        # the longest ASCII name the token starts with holds another value already
+        k = RS.scan_name(tok, 0)[0]
+        if k == 0 or k == len(tok):
+            return None
+        pre = "%define " + tok[:k] + " one\n"
+        steps = [("define", {MAIN: pre + d + " two\n"}, acc_or_ref([]))]
+        if legal:
+            steps.append(("refer", {MAIN: pre + d + " two\n" + uses}, ("ok", ["two", "two-"])))
+    elif ctx == "included":
+        inc = {"file:///v/sub/inc1.conf": d + " lit\n"}
+        steps = [("define", dict(inc, **{MAIN: "%include sub/inc1.conf\n"}), acc_or_ref([]))]
+        if legal:
+            steps.append(("refer", dict(inc, **{MAIN: "%include sub/inc1.conf\n" + uses}), ("ok", ["lit", "lit-"])))
+    elif ctx == "redefined":
+        steps = [("define", {MAIN: d + " lit\n" + d + " lit\n"}, acc_or_ref([])),
+                 ("redefine", {MAIN: d + " lit\n" + d + " other\n"}, "refused")]
+    elif ctx == "empty-value":
+        steps = [("define", {MAIN: d + "\n"}, acc_or_ref([]))]
+        if legal:
+            steps.append(("refer", {MAIN: d + "\n" + uses}, ("ok", ["", "-"])))
+    return steps
+
+
+def observe_files(sch, files):
+    if len(files) > 1:
+        return observe(sch, files)
+    r = H.load(sch, files[MAIN], MAIN)
+    if r[0] == "ok":
+        return ("ok", list(r[1].u))
+    if r[0] == "rejected":
+        return outcome_of(r[1])
+    return ("internal", core.exc_desc(r[1]))
+
+
+def judge_token(sch, tok, ctx, acc, count_nt=True):
+    """One token in the name position of a %define, in one context."""
+    cls, verdict = token_class(tok)
+    case = {"name_token": tok, "context": ctx, "code_points": ["U+%04X" % ord(c) for c in tok]}
+    tags = {"kind": "name-consistency", "class": cls, "context": ctx,
+            "lowercases_to_ascii_name": lowercases_to_ascii_name(tok)}
+    acc.extra["name_tokens_%s" % cls] += 1
+    try:
+        said = impl_isname(tok)
+    except Exception as e:
+        acc.ev()
+        acc.violation("name-token", case, core.exc_desc(e), "isname() answers", tags=dict(tags, what="internal-error"))
+        return
+    if cls == "delimiter":
+        # totality only: where the token ends is not this property's subject
+        files = {MAIN: "%define " + tok + " lit\n"}
+        got = observe_files(sch, files)
+        acc.ev()
+        acc.transitions += 1
+        acc.cls("name-token delimiter impl=%s" % got[0])
+        if got[0] == "internal":
+            acc.violation("name-token", dict(case, files=files), got[1], "configuration error or accepted",
+                          tags=dict(tags, what="internal-error"))
+        return
+    if cls == "definite" and said != verdict:
+        acc.ev()
+        acc.violation("name-token", case, {"isname": said}, {"isname": verdict},
+                      tags=dict(tags, what="isname-differs-from-reference"))
+        return
+    legal = verdict if cls == "definite" else said
+    steps = scenario(tok, ctx, legal)
+    if steps is None:
+        acc.extra["name_token_context_not_applicable"] += 1
+        return
+    if count_nt and not tok.isascii():
+        acc.nt()
+    for what, files, want in steps:
+        got = observe_files(sch, files)
+        acc.ev()
+        acc.transitions += 1
+        if what == "define":
+            acc.cls("name-token %s legal=%s impl=%s" % (cls, legal, got[0]))
+        elif got[0] == "ok":
+            acc.extra["name_token_accepted_and_referred_to"] += 1
+        bad = None
+        if got[0] == "internal":
+            bad = "internal-error"
+        elif want == "refused":
+            if got[0] == "ok":
+                bad = "accepted-name-redefinable" if what == "redefine" else \
+                    ("define-accepts-illegal-name" if cls == "definite" else "define-accepts-what-isname-refuses")
+            elif got[0] not in ("syntax", "missing"):
+                bad = "refusal-is-not-a-syntax-error"
+        elif got != want:
+            bad = "accepted-name-not-referable" if what == "refer" else \
+                ("define-refuses-legal-name" if cls == "definite" else "define-refuses-what-isname-accepts")
+        if bad:
+            acc.violation("name-token", dict(case, files=files, isname=said), list(got),
+                          want if want == "refused" else list(want), tags=dict(tags, what=bad),
+                          size=len(tok) * 1000 + len(repr(files)))
+            return
+    acc.sample(lambda: dict(case, isname=said, legal=legal))
+
+
+def sweep_shard(arg, acc):
+    """arg = ('sweep', position, lo, hi): every scalar value lo..hi-1 at that position."""
+    _, pos, lo, hi = arg
+    sch = H.load_schema(SCHEMA)
+    for cp in range(lo, hi):
+        if 0xD800 <= cp <= 0xDFFF:
+            continue
+        tok = positioned(pos, chr(cp))
+        acc.current = (pos, cp)
+        judge_token(sch, tok, "plain", acc)
+    acc.traces = acc.transitions
+    return acc
+
+
+def strings_shard(arg, acc):
+    """arg = ('strings', tier, first character): every string of <= 3 characters over
+    sigma(tier) that starts with it, in every context."""
+    _, tier, c0 = arg
+    sch = H.load_schema(SCHEMA)
+    S = sigma(tier)
+    toks = [c0] + [c0 + c for c in S] + [c0 + c + e for c in S for e in S]
+    for tok in toks:
+        for ctx in CONTEXTS:
+            acc.current = (tok, ctx)
+            judge_token(sch, tok, ctx, acc, count_nt=not (ctx == "plain" and sweep_shaped(tok)))
+    acc.traces = acc.transitions
+    return acc
+
+
+def sweep_plan(tier):
+    """-> {position: number of planes swept}."""
+    if tier == "quick":
+        return {"alone": 1, "first": 1, "middle": 1, "last": 2}
+    return {p: 17 for p in POSITIONS}
+
+
 def shard(arg, acc):
     if arg[0] == "bfs":
         return bfs_shard(arg[1:], acc)
+    if arg[0] == "sweep":
+        return sweep_shard(arg, acc)
+    if arg[0] == "strings":
+        return strings_shard(arg, acc)
     return session_shard(arg, acc)
 
 
@@ -561,6 +852,8 @@ def run(tier):
         for t in tab:
             t.fresh = {k: session_load(make_loader(sch, k), t.files, "file") for k in ("plain", "extended")}
     ill = illegal_names()
+    S = sigma(tier)
+    plan = sweep_plan(tier)
     run = core.Run(
         "C05", tier, "model_checking",
         rule="(1) breadth-first search over histories of up to %d steps from an alphabet of %d events (%%define of 3 "
@@ -578,18 +871,43 @@ def run(tier):
              "line) = %d / %d texts, each also checked alone; %s.  Every load of a session must agree with the "
              "reference of its text alone AND equal (outcome and message) the first load of that text on a new "
              "loader of the same class (the ExtendedConfigLoader carries one override of an unrelated key, so its "
-             "own schema matcher is in use).  Non-trivial = history with >= 1 define and >= 1 use or redefinition; session whose first text "
-             "has a define and whose last text a define or use."
+             "own schema matcher is in use).  (3) the NAME position by code point.  A token is 'definite' when the "
+             "statement decides it (a legal ASCII name; or it holds a character that is neither an ASCII name "
+             "character nor a letter / digit of another script; or it starts with an ASCII digit), 'open' when it "
+             "is a would-be name with a letter / digit outside ASCII (the statement says 'letter'), 'delimiter' when "
+             "it holds white space (totality only).  Oracle: legal := the reference verdict (definite; the public "
+             "ZConfig.substitution.isname must say the same) or what isname says (open); '%%define N v' is accepted "
+             "exactly when N is legal, otherwise refused as a syntax error; an accepted N is a member of the "
+             "namespace: 'u $N' and 'u ${N}-' after it give v and v-, and '%%define N other' after it is refused.  "
+             "(3a) sweep: every Unicode scalar value c as the token c / c+'a' / 'a'+c+'b' / 'a'+c: %s.  (3b) every "
+             "string of 1..3 characters over %d characters (ASCII a B _ 1 - and one representative per class: small / "
+             "capital letter, letter whose small form is ASCII (U+212A) or ASCII + mark (U+0130), letter with an ASCII "
+             "two-letter capital, decimal / superscript / letter digit, ordinal mark, combining mark, joiner, "
+             "identifier punctuation U+00B7, compatibility and non-BMP forms of 'a', ideograph, symbol, ligature) = "
+             "%d tokens, each in %d contexts: alone in the text; after its longest ASCII-name prefix was defined "
+             "with another value; defined in an included resource and used by the includer; defined twice with "
+             "the same / another value; defined without a value.  (3c) the tokens %s are events of the search (1), "
+             "i.e. tried after every reachable namespace state.  Non-trivial = history"
+             " with >= 1 define and >= 1 use or redefinition; session whose first text "
+             "has a define and whose last text a define or use; name token of (3) with a character outside ASCII "
+             "(each token x context counted once)."
              % (depth, len(A), len(ill), " ".join(ill), len(R), len(T1), len(T2),
                 "all ordered pairs over T2 on a plain ConfigLoader through loadFile; all ordered pairs over T1 on "
                 "plain / loadURL, ExtendedConfigLoader / loadFile and loadURL, and on new loaders sharing the "
                 "schema; all ordered triples over T1 on the plain loader" if tier == "quick" else
                 "all ordered pairs over T2 and all ordered triples over T1 in each of 5 loader variants (plain or "
                 "ExtendedConfigLoader x loadFile or loadURL, and new loaders sharing the schema); all pairs "
-                "(first text of <= 3 events over the quick alphabet: %d texts) x T2 on the plain loader" % len(T3)),
+                "(first text of <= 3 events over the quick alphabet: %d texts) x T2 on the plain loader" % len(T3),
+                "; ".join("%s: planes 0..%d" % (p, n - 1) for p, n in sorted(sweep_plan(tier).items())),
+                len(S), len(S) + len(S) ** 2 + len(S) ** 3, len(CONTEXTS),
+                " ".join(ascii(t) for t in BFS_TOKENS)),
         bounds={"depth": depth, "alphabet": len(A), "include_depth": 2, "name_position_tokens": len(ill),
                 "session_alphabet": len(R), "session_texts_len1": len(T1), "session_texts_le2": len(T2),
                 "session_texts_le3": len(T3) if T3 else 0, "session_lengths": [2, 3],
+                "name_token_sweep_planes_per_position": plan,
+                "name_token_sweep_excludes": "surrogate code points U+D800..U+DFFF",
+                "name_token_alphabet": [ascii(c) for c in S], "name_token_string_length": 3,
+                "name_token_contexts": list(CONTEXTS), "name_tokens_in_search": [ascii(t) for t in BFS_TOKENS],
                 "loader_variants": ["%s/%s" % v for v in VARIANTS]},
         assumptions=["reference DefineSpace vz/ref/subst.py", "resources served in memory through the public "
                      "openResource override; relative include resolution is C06's subject",
@@ -603,6 +921,10 @@ def run(tier):
     shards += chunks("triples1", tier, len(T1), len(T1))
     if T3:
         shards += chunks("pairs3", tier, len(T3), 512)
+    for pos in POSITIONS:
+        for lo in range(0, plan[pos] * 0x10000, 0x2000):
+            shards.append(("sweep", pos, lo, lo + 0x2000))
+    shards += [("strings", tier, c) for c in S]
     core.pmap(shard, shards, run.acc, shard_budget=3000.0)
     a = run.acc
     run.require(a.classes.get("ref=ok impl=ok", 0) > 500, "few accepted histories")
@@ -617,6 +939,20 @@ def run(tier):
     run.require(a.classes.get("session after=refused ref=missing impl=missing", 0) > 1000,
                 "few undefined uses after a refused load on the same loader")
     run.require(a.classes.get("session after=ok ref=ok impl=ok", 0) > 1000, "few accepted loads after accepted loads")
+    swept = sum(plan.values()) * 0x10000 - len(POSITIONS) * 0x800
+    run.require(a.extra.get("name_tokens_open", 0) + a.extra.get("name_tokens_definite", 0)
+                + a.extra.get("name_tokens_delimiter", 0) == swept + len(CONTEXTS) * (len(S) + len(S) ** 2 + len(S) ** 3),
+                "the code point sweep / the token strings did not run completely")
+    run.require(a.classes.get("name-token open legal=False impl=syntax", 0) > 150000,
+                "few name tokens with a letter / digit outside ASCII that isname() and %define refuse alike")
+    run.require(a.classes.get("name-token definite legal=False impl=syntax", 0) > 100000,
+                "few name tokens that the statement refuses")
+    run.require(a.classes.get("name-token definite legal=True impl=ok", 0) > 200
+                and a.extra.get("name_token_accepted_and_referred_to", 0) > 200,
+                "few legal name tokens that were defined and then referred to")
+    run.require(a.extra.get("bfs_non_ascii_name_after_its_ascii_prefix_was_defined", 0) > 1000
+                and a.extra.get("bfs_non_ascii_name_after_its_ascii_prefix_was_undefined", 0) > 1000,
+                "few histories that end in a %define of a name with a character outside ASCII")
     for v in VARIANTS:
         run.require(a.extra.get("sessions_%s_%s_len2" % v, 0) >= len(T1) * len(T1), "loader variant %s/%s not run" % v)
     return run
@@ -627,6 +963,8 @@ def replay(body):
     sch = H.load_schema(SCHEMA)
     if "session" in case:
         return replay_session(sch, case)
+    if "name_token" in case:
+        return replay_token(sch, case)
     hist = tuple(tuple(e) for e in case["history"])
     rc = 0
     for _ in range(2):
@@ -636,7 +974,34 @@ def replay(body):
         got = observe(sch, files)
         exp = reference(hist)[0]
         print("observed:", got, " reference:", exp)
-        if exp[0] != "unspec" and not agrees(got, exp, hist):
+        if any(e[0] == "def" and token_class(e[1])[0] == "open" for e in hist):
+            # judged by consistency with isname(): run the check's own verdict on the history
+            # up to and including that %define
+            n = [i for i, e in enumerate(hist) if e[0] == "def" and token_class(e[1])[0] == "open"][0]
+            acc = core.Acc()
+            check(sch, hist[:n + 1], acc)
+            for v in acc.violations.values():
+                print("isname(%s) = %s;" % (ascii(hist[n][1]), impl_isname(hist[n][1])), v["tags"].get("what"),
+                      "observed:", v["observed"], "expected:", v["expected"])
+                rc = 1
+        elif exp[0] != "unspec" and not agrees(got, exp, hist):
+            rc = 1
+    return rc
+
+
+def replay_token(sch, case):
+    tok, ctx = case["name_token"], case["context"]
+    rc = 0
+    for _ in range(2):
+        acc = core.Acc()
+        cls, verdict = token_class(tok)
+        print("token %s (%s) context=%s class=%s reference verdict=%s isname()=%s" % (
+            ascii(tok), " ".join("U+%04X" % ord(c) for c in tok), ctx, cls, verdict, impl_isname(tok)))
+        judge_token(sch, tok, ctx, acc)
+        for v in acc.violations.values():
+            for u, x in v["case"].get("files", {}).items():
+                print("--- %s\n%s" % (u, x), end="")
+            print(v["tags"].get("what"), "observed:", v["observed"], "expected:", v["expected"])
             rc = 1
     return rc
 
